@@ -13,41 +13,41 @@ package main
 // Tautschnig partial-order encoding, DESIGN section 4 and appendix A).
 
 import (
-	"strconv"
-	"sync/atomic"
-	"sync"
-	"os"
 	"fmt"
 	"go/types"
+	"os"
 	"sort"
+	"strconv"
 	"strings"
+	"sync"
+	"sync/atomic"
 	"time"
 
 	"golang.org/x/tools/go/ssa"
 )
 
 type Event struct {
-	ID     int
-	Thread int
-	Idx    int
-	Kind   string // r w rmw lock unlock rlock runlock enq wake bcast close send recv park go begin end fire cancel mapr mapw
-	Loc    string
-	RV     *Term  // value read
-	WV     *Term  // value written
-	RVRef  string // reference-valued read: variable name of the selector
-	Atomic bool
-	Pos    string
-	Stack  string
-	Ctxs   string // park events: cancellable contexts among the select cases
-	Aux    string
-	Peer   *Event // wake <-> enq, unlock <-> lock …
-	Held   []string
+	ID       int
+	Thread   int
+	Idx      int
+	Kind     string // r w rmw lock unlock rlock runlock enq wake bcast close send recv park go begin end fire cancel mapr mapw
+	Loc      string
+	RV       *Term  // value read
+	WV       *Term  // value written
+	RVRef    string // reference-valued read: variable name of the selector
+	Atomic   bool
+	Pos      string
+	Stack    string
+	Ctxs     string // park events: cancellable contexts among the select cases
+	Aux      string
+	Peer     *Event // wake <-> enq, unlock <-> lock …
+	Held     []string
 	DepReads []*Event // write events: the read events of the same path whose value the written value depends on
-	HasRef bool // reference-valued read whose value was fixed to the candidate RefID on this path
-	RefID  int
-	Init   bool // initialising write emitted when a thread-local object is published (ownership transfer): not a racing access
-	Plain  bool // plain (non-atomic, non-sync) memory access: subject to the race analysis
-	Cap    int  // channel capacity (send / park / selwake events)
+	HasRef   bool     // reference-valued read whose value was fixed to the candidate RefID on this path
+	RefID    int
+	Init     bool // initialising write emitted when a thread-local object is published (ownership transfer): not a racing access
+	Plain    bool // plain (non-atomic, non-sync) memory access: subject to the race analysis
+	Cap      int  // channel capacity (send / park / selwake events)
 }
 
 type recAssert struct {
@@ -75,8 +75,8 @@ type ThreadSpec struct {
 	Name      string
 	Fn        Value
 	Args      []Value
-	Parent    int    // spawning thread (0 = setup), event index of the go statement in the parent path
-	EnvCancel string // environment thread: cancels the named context at any moment, or never
+	Parent    int      // spawning thread (0 = setup), event index of the go statement in the parent path
+	EnvCancel string   // environment thread: cancels the named context at any moment, or never
 	After     []string // SpawnAfter: first step only after these threads (and their goroutines) first blocked / finished
 	AfterDone []string // SpawnAfterDone: first step only after these threads have returned
 	Paths     []*ThreadPath
@@ -118,7 +118,8 @@ type ConcState struct {
 	readCache    map[string]Value
 	refMu        sync.Mutex
 	waitCnt      map[string]int // Cond.Wait sites passed on the current path (retry-loop bound)
-	pcMark       pcMarkT // path-condition mark at the start of the thread being explored
+	mapAcc       map[string]map[int]bool // shared map -> accessing thread -> it writes the map
+	pcMark       pcMarkT        // path-condition mark at the start of the thread being explored
 }
 
 type heapSnap struct {
@@ -918,6 +919,18 @@ func (ex *Exec) concMapAccess(m *MapV, write bool) {
 		return
 	}
 	loc := fmt.Sprintf("map%d", m.ID)
+	if m.ID/1000000 != c.curThread {
+		// a map that exists outside the thread: its CONTENTS are not modelled as shared state (each
+		// thread is explored on the contents at the fork); composeAndCheck refuses to decide a
+		// harness in which one thread changes such a map and another one looks at it
+		if c.mapAcc == nil {
+			c.mapAcc = map[string]map[int]bool{}
+		}
+		if c.mapAcc[loc] == nil {
+			c.mapAcc[loc] = map[int]bool{}
+		}
+		c.mapAcc[loc][c.curThread] = c.mapAcc[loc][c.curThread] || write
+	}
 	if write {
 		if c.newWrite[loc] == nil {
 			c.newWrite[loc] = map[int]bool{}
@@ -1376,6 +1389,27 @@ func (ex *Exec) composeAndCheck() {
 	if ex.h.Opts["race"] == "1" {
 		ex.raceBySites(final, finalPC)
 		return
+	}
+	for loc, acc := range c.mapAcc {
+		for w, writes := range acc {
+			if !writes {
+				continue
+			}
+			for t := range acc {
+				if t != w {
+					msg := fmt.Sprintf("%s: unsupported: the contents of %s are changed by thread %s and accessed by thread %s; map contents are not modelled as state shared between threads", ex.h.Name, loc, c.threads[w].Name, c.threads[t].Name)
+					for _, e := range res.Errors {
+						if e == msg {
+							msg = ""
+						}
+					}
+					if msg != "" {
+						res.Errors = append(res.Errors, msg)
+					}
+					return
+				}
+			}
+		}
 	}
 	// options of thread t given the chosen prefix: nil if its parent path did not spawn it
 	options := func(t int, acc []*ThreadPath) []*ThreadPath {
